@@ -124,6 +124,8 @@ CALLS = {
     'fn:sort/2': ('fn', 'std_sort2'),
     'QLst::sort/0': ('fn', 'qlst_sort'),
     'QLst::removeDuplicates/0': ('fn', 'qlst_removeDuplicates'),
+    'fn:unique/2': ('fn', 'std_unique'),
+    'QLst::erase/2': ('fn', 'qlst_erase'),
     'QLst::join/1': ('fn', 'qlst_join'),
     'rangefor:QLst': rangefor_list,
     # ---- data form, fields, QVariant
@@ -220,6 +222,8 @@ CALLS2 = {
     'QXmppPresence::capabilityHash/0': ('callee', 'QXmppPresence_capabilityHash'),
     'QXmppPresence::capabilityNode/0': ('callee', 'QXmppPresence_capabilityNode'),
     'QXmppPresence::capabilityVer/0': ('callee', 'QXmppPresence_capabilityVer'),
+    'qstr::indexOf/1': ('fn', 'qstr_indexOf'),
+    'qstr::left/1': ('fn', 'qstr_left'),
     'qba::isEmpty/0': ('expr', '{0} == 0'),
     'qba::isNull/0': ('expr', '{0} == 0'),
     'op==:qba:qba': ('expr', '{0} == {1}'),
